@@ -379,7 +379,7 @@ Section Steps.
     cbn [exec]. now apply ok_goto.
   Qed.
 
-  Lemma decide_ok s t : ShInv s -> ThrOk s t -> step_ok s t (decide true true true true reg cloud t s).
+  Lemma decide_ok s t : ShInv s -> ThrOk s t -> step_ok s t (decide true true true true true reg cloud t s).
   Proof.
     intros Hs (Hh & Ho & Hpc). pose proof Hs as (Hidx & Hlok & Hown & Hfresh & Hrec & Httl & Hpos).
     unfold decide. destruct (next_fault t) as [f fs].
@@ -557,7 +557,7 @@ End Steps.
 
 Section Sys.
   Variables reg cloud : name -> option pmap.
-  Notation dstepF := (dstep true true true true reg cloud).
+  Notation dstepF := (dstep true true true true true reg cloud).
 
   Definition GInv (s : shared * list thr) : Prop :=
     ShInv (fst s) /\
@@ -590,7 +590,7 @@ Section Sys.
     destruct s as [sh ls]. unfold GInv, sys_step. cbn [fst snd].
     intros (Hs & Hnd & Hmk & Hth).
     destruct (nth_error ls k) as [t|] eqn:Ek; [|cbn; auto].
-    unfold dstep. destruct (decide true true true true reg cloud t sh) as [t' a] eqn:Ed. cbn [fst snd].
+    unfold dstep. destruct (decide true true true true true reg cloud t sh) as [t' a] eqn:Ed. cbn [fst snd].
     destruct (nth_error_split_upd ls k t t' Ek) as (l1 & l2 & El & Eu). rewrite Eu. subst ls.
     assert (Ht : ThrOk sh t) by (apply Hth, in_or_app; right; now left).
     pose proof (decide_ok reg cloud sh t Hs Ht) as Hok. rewrite Ed in Hok.
@@ -662,7 +662,7 @@ Section Sys.
   Qed.
 
   Theorem ginv_all_schedules ts sched :
-    (forall t, In t ts -> fresh_thr t) -> GInv (drun true true true true reg cloud empty_store ts sched).
+    (forall t, In t ts -> fresh_thr t) -> GInv (drun true true true true true reg cloud empty_store ts sched).
   Proof.
     intros Hf. unfold drun. apply inv_all_schedules; [intros s i; apply ginv_step|now apply ginv_init].
   Qed.
@@ -789,7 +789,7 @@ Section Consequences.
     idx s n = None /\
     (forall h now h' i c tg, extractDomain h = n -> lookup_now reg cloud s h now <> RRouted 1 h' i c tg) /\
     (forall t i tgt fs, pc t = PCSetNX i n tgt -> next_fault t = (false, fs) ->
-       decide true true true true reg cloud t s = (goto t fs (PCSetRec i n tgt), AClaim n i (cl t))).
+       decide true true true true true reg cloud t s = (goto t fs (PCSetRec i n tgt), AClaim n i (cl t))).
   Proof.
     intros Hs Hh. pose proof Hs as (Hidx & _). assert (Hi : idx s n = None) by (rewrite Hidx; exact Hh).
     split; [exact Hi|split].
@@ -805,7 +805,7 @@ Section Consequences.
   Lemma foreign_delete_refused t s r rest m fs :
     pc t = Idle -> ops t = ODelete r :: rest -> next_fault t = (false, fs) ->
     recs s (resolve t r) = Some m -> r_client m <> cl t ->
-    dstep true true true true reg cloud t s = (finish t fs (RErr EForbidden), s).
+    dstep true true true true true reg cloud t s = (finish t fs (RErr EForbidden), s).
   Proof.
     intros Hp Ho Hf Hr Hc. unfold dstep, decide. rewrite Hf, Hp, Ho, Hr.
     apply Z.eqb_neq in Hc. rewrite Hc. reflexivity.
@@ -814,7 +814,7 @@ Section Consequences.
   (* second read of a lookup: an inactive or expired record is an error, not a fall-through to the other sources *)
   Lemma inactive_or_expired_step t s h n i now m fs :
     pc t = PCLRec h n i now -> next_fault t = (false, fs) -> recs s i = Some m -> is_active m now = false ->
-    dstep true true true true reg cloud t s =
+    dstep true true true true true reg cloud t s =
       (finish t fs (RErr (if is_expired m now then EForbidden else EUnavailable)), s).
   Proof.
     intros Hp Hf Hr Ha. unfold dstep, decide. rewrite Hf, Hp, Hr, Ha. destruct (is_expired m now); reflexivity.
@@ -825,7 +825,7 @@ Section Consequences.
   Lemma unbound_delete_refused t s r rest m fs :
     ShInv s -> pc t = Idle -> ops t = ODelete r :: rest -> next_fault t = (false, fs) ->
     recs s (resolve t r) = Some m -> (cl t <= 0)%Z ->
-    dstep true true true true reg cloud t s = (finish t fs (RErr EForbidden), s).
+    dstep true true true true true reg cloud t s = (finish t fs (RErr EForbidden), s).
   Proof.
     intros Hs Hp Ho Hf Hr Hc. apply (foreign_delete_refused t s r rest m fs Hp Ho Hf Hr).
     pose proof (stored_client_positive s _ _ Hs Hr). lia.
@@ -834,7 +834,7 @@ Section Consequences.
   (* CreateMapping by such an id draws an id and is then refused by validation: nothing is claimed or stored *)
   Lemma unbound_create_refused t s sub base tgt fs :
     pc t = PCIncr sub base tgt -> next_fault t = (false, fs) -> (cl t <= 0)%Z ->
-    dstep true true true true reg cloud t s =
+    dstep true true true true true reg cloud t s =
       (finish t fs (RErr EValidation), exec (AIncr (cl t) (full_domain sub base)) s).
   Proof.
     intros Hp Hf Hc. unfold dstep, decide. rewrite Hf, Hp. unfold incr_step, after_incr, valid_create.
@@ -844,7 +844,7 @@ Section Consequences.
   (* the expiry cleanup only ever selects mappings it has read as expired; the others are left alone *)
   Lemma cleanup_skips_unexpired t s now i rest acc m fs :
     pc t = PCClScan now (i :: rest) acc -> next_fault t = (false, fs) -> recs s i = Some m -> is_expired m now = false ->
-    dstep true true true true reg cloud t s = (cl_scan_next t fs now rest acc, s).
+    dstep true true true true true reg cloud t s = (cl_scan_next t fs now rest acc, s).
   Proof.
     intros Hp Hf Hr He. unfold dstep, decide. rewrite Hf, Hp, Hr, He. reflexivity.
   Qed.
@@ -852,7 +852,7 @@ Section Consequences.
   (* ... and it deletes with the mapping's own client id: a record whose owner changed in between is skipped *)
   Lemma cleanup_acts_as_owner t s i c rest cnt m fs :
     pc t = PCClDGet ((i, c) :: rest) cnt -> next_fault t = (false, fs) -> recs s i = Some m -> r_client m <> c ->
-    dstep true true true true reg cloud t s = (cl_del t fs rest cnt, s).
+    dstep true true true true true reg cloud t s = (cl_del t fs rest cnt, s).
   Proof.
     intros Hp Hf Hr Hc. unfold dstep, decide. rewrite Hf, Hp, Hr. apply Z.eqb_neq in Hc. rewrite Hc. reflexivity.
   Qed.
@@ -887,7 +887,7 @@ Section Consequences.
   (* the only step that can answer "routed from the repository" is the second read of a lookup, on a record that is
      active and unexpired at the lookup time; the answer is that record's client and target *)
   Lemma routed_only_from_active t s t' a h i c tg :
-    decide true true true true reg cloud t s = (t', a) -> out t' = RRouted 1 h i c tg :: out t ->
+    decide true true true true true reg cloud t s = (t', a) -> out t' = RRouted 1 h i c tg :: out t ->
     exists m n now, pc t = PCLRec h n i now /\ recs s i = Some m /\ is_active m now = true /\
                     c = r_client m /\ tg = r_target m.
   Proof.
@@ -909,8 +909,9 @@ Section Consequences.
      entry (first read) or no record behind the index entry (second read); the answer is then the registry's entry for that
      very name, else cloud control's, and only if that entry is active, not revoked and unexpired *)
   Lemma legacy_answer_only_without_repository_mapping t s t' a src h i c tg :
-    decide true true true true reg cloud t s = (t', a) -> out t' = RRouted src h i c tg :: out t -> src <> 1 ->
+    decide true true true true true reg cloud t s = (t', a) -> out t' = RRouted src h i c tg :: out t -> src <> 1 ->
     exists n now,
+      fst (next_fault t) = false /\          (* the repository read of this step did NOT fail *)
       ((pc t = Idle /\ n = extractDomain h /\ idx s n = None) \/ (exists j, pc t = PCLRec h n j now /\ recs s j = None)) /\
       exists p, ((reg n = Some p /\ src = 2) \/ (reg n = None /\ cloud n = Some p /\ src = 3)) /\
                 p_id p = i /\ p_client p = c /\ p_target p = tg /\
@@ -929,17 +930,26 @@ Section Consequences.
     all: try discriminate.
     all: match goal with
          | H : fallback reg cloud ?h0 ?n0 ?now0 = RRouted _ _ _ _ _ |- _ =>
-             destruct (fallback_shape _ _ _ _ _ _ _ _ H) as (-> & p & Hp); exists n0, now0; split; [|exists p; exact Hp]
+             destruct (fallback_shape _ _ _ _ _ _ _ _ H) as (-> & p & Hp); exists n0, now0; split; [reflexivity|split; [|exists p; exact Hp]]
          end.
     - left. auto.
     - right. eauto.
+  Qed.
+
+  (* a lookup whose repository read fails (either of its two reads) is answered with that error: no source answers *)
+  Lemma faulted_lookup_rejected t s fs :
+    next_fault t = (true, fs) ->
+    ((exists h now rest, pc t = Idle /\ ops t = OLookup h now :: rest) \/ (exists h n i now, pc t = PCLRec h n i now)) ->
+    dstep true true true true true reg cloud t s = (finish t fs (RErr EStorage), s).
+  Proof.
+    intros Hf [(h & now & rest & Hp & Ho)|(h & n & i & now & Hp)]; unfold dstep, decide; rewrite Hf, Hp; [rewrite Ho|]; reflexivity.
   Qed.
 
 
   Section Reach.
     Variables (ts : list thr) (sched : list nat).
     Hypothesis Hfresh : forall t, In t ts -> fresh_thr t.
-    Let s := drun true true true true reg cloud empty_store ts sched.
+    Let s := drun true true true true true reg cloud empty_store ts sched.
 
     Lemma reach_shinv : ShInv (fst s).
     Proof. exact (proj1 (ginv_all_schedules reg cloud ts sched Hfresh)). Qed.
@@ -962,7 +972,7 @@ Section Consequences.
     Lemma reach_unbound_delete_refused t r rest m fs :
       pc t = Idle -> ops t = ODelete r :: rest -> next_fault t = (false, fs) ->
       recs (fst s) (resolve t r) = Some m -> (cl t <= 0)%Z ->
-      dstep true true true true reg cloud t (fst s) = (finish t fs (RErr EForbidden), fst s).
+      dstep true true true true true reg cloud t (fst s) = (finish t fs (RErr EForbidden), fst s).
     Proof. apply unbound_delete_refused. exact reach_shinv. Qed.
 
     (* in reachable states the second read of a lookup is for the name the Host resolves to *)
@@ -1011,7 +1021,7 @@ Section Consequences.
       idx (fst s) n = None /\
       (forall h now h' i' c' tg, extractDomain h = n -> lookup_now reg cloud (fst s) h now <> RRouted 1 h' i' c' tg) /\
       (forall t i' tgt fs, pc t = PCSetNX i' n tgt -> next_fault t = (false, fs) ->
-         decide true true true true reg cloud t (fst s) = (goto t fs (PCSetRec i' n tgt), AClaim n i' (cl t))).
+         decide true true true true true reg cloud t (fst s) = (goto t fs (PCSetRec i' n tgt), AClaim n i' (cl t))).
     Proof.
       intros E. pose proof reach_shinv as Hs. pose proof Hs as (_ & Hok & _).
       split.
